@@ -36,6 +36,11 @@ def check(ck):
     r06_5(ck)
     r06_6(ck)
     r06_7(ck)
+    from . import helpers as H
+    ck.rule('R06.8', 'update_in, assoc_path and deep_merge, with which the inverted update is assembled, keep their recursion skeleton')
+    H.update_in_shape(ck, 'R06.8')
+    H.assoc_path_shape(ck, 'R06.8')
+    H.deep_merge_shape(ck, 'R06.8')
 
 
 # ------------------------------------------------------------- case tables
